@@ -1006,6 +1006,14 @@ fn c17_check(c: &WrapCase) -> Result<(bool, Vec<&'static str>), String> {
                 if r1 != Err(Error::Argument) || r2 != Err(Error::Argument) {
                     return Err(format!("[C17] zone(offset {offset}) put/get of frame {f} below the offset returned {r1:?}/{r2:?}, expected Err(Argument)"));
                 }
+                // queries: nothing below the offset belongs to the zone, so nothing there is free
+                for order in [0, HUGE_ORDER, TREE_ORDER] {
+                    let fa = f >> order << order;
+                    let q = g("zone stats_at", || zone.stats_at(FrameId(fa), order))?;
+                    if q.free_frames != 0 || q.free_huge != 0 || q.free_trees != 0 {
+                        return Err(format!("[C17] zone(offset {offset}).stats_at(frame {fa} below the offset, order {order}) reports free memory: {q:?}"));
+                    }
+                }
                 kinds.push("below_offset");
             }
             WrapOp::Drain => {
@@ -1027,6 +1035,14 @@ fn c17_check(c: &WrapCase) -> Result<(bool, Vec<&'static str>), String> {
             let b = twin.alloc.stats_at(FrameId(f), 0).free_frames;
             if a != b {
                 return Err(format!("[C17] zone.stats_at(frame {}+offset) = {a}, inner = {b}", f));
+            }
+            for order in [HUGE_ORDER, TREE_ORDER] {
+                let fa = f >> order << order;
+                let a = format!("{:?}", zone.stats_at(FrameId(fa + offset), order));
+                let b = format!("{:?}", twin.alloc.stats_at(FrameId(fa), order));
+                if a != b {
+                    return Err(format!("[C17] zone.stats_at(frame {fa}+offset, order {order}) = {a}, inner = {b}"));
+                }
             }
         }
         Ok(())
@@ -1152,7 +1168,7 @@ pub fn run_c17(ctx: &Ctx) -> Finish {
         &ctx.tier,
         ctx.seed,
         "exploration",
-        "generated (offset 0..4 trees, inner size, op list, persistent zone size 1-3 trees + remainder, bad-recover variant). Zone wrapper: every get/put/drain runs on ZoneAlloc<LLFree> and on an inner LLFree twin; results must equal twin + offset, statistics and sampled stats_at must agree, frames below the offset give Err(Argument). Persistent wrapper on a tree-aligned anonymous mapping: recovering untouched memory fails with Initialization; after create + generated gets/puts every returned block lies inside the managed range and outside [lower metadata pages, header page]; recovering a shifted or shorter region fails with Initialization; recovering the instance yields the identical per-frame state and every block held across the restart can be freed. Non-trivial = at least one block held across the recover; distinct by case hash.",
+        "generated (offset 0..4 trees, inner size, op list, persistent zone size 1-3 trees + remainder, bad-recover variant). Zone wrapper: every get/put/drain runs on ZoneAlloc<LLFree> and on an inner LLFree twin; results must equal twin + offset, statistics and sampled stats_at (base, huge and tree order) must agree, frames below the offset give Err(Argument) for get/put and report nothing free in stats_at. Persistent wrapper on a tree-aligned anonymous mapping: recovering untouched memory fails with Initialization; after create + generated gets/puts every returned block lies inside the managed range and outside [lower metadata pages, header page]; recovering a shifted or shorter region fails with Initialization; recovering the instance yields the identical per-frame state and every block held across the restart can be freed. Non-trivial = at least one block held across the recover; distinct by case hash.",
     );
     let op = || {
         prop_oneof![
